@@ -96,7 +96,16 @@ type Req struct {
 	// BodyLen > 0: the request carries a body of that many bytes (known length).
 	BodyLen int `json:"body_len,omitempty"`
 	// EmptyMethod: the request is sent with Method "" (which net/http defines as GET).
-	EmptyMethod bool   `json:"empty_method,omitempty"`
+	EmptyMethod bool `json:"empty_method,omitempty"`
+	// Rootless: the http.Request's URL.Path lacks its leading slash (what URL.JoinPath returns
+	// for a base without a path); URL.String() - the target URI - is still URL.
+	Rootless bool `json:"rootless,omitempty"`
+	// NilReqHeader: the caller's request has no header map at all (http.Request{Method, URL}).
+	NilReqHeader bool `json:"nil_req_header,omitempty"`
+	// LegacyCancel: the request carries a Request.Cancel channel (as http.Client sets for its
+	// Timeout): "pre" = already closed when RoundTrip is called, "post" = closed by the caller
+	// once it has read and closed the response body, "open" = never closed.
+	LegacyCancel string `json:"legacy_cancel,omitempty"`
 	Uncond      Reply  `json:"uncond"`
 	Cond        *Reply `json:"cond,omitempty"`
 	Bg          *Reply `json:"bg,omitempty"`
@@ -129,6 +138,8 @@ type Body struct {
 	Class  string `json:"class,omitempty"` // "" (filler 'x') | rand | crlf | nul | httpish | meta
 	Seed   uint64 `json:"seed,omitempty"`
 	FailAt int    `json:"fail_at,omitempty"` // >0: the reader fails (sticky) after FailAt-1 bytes; 0 = never
+	// CloseErr: the body delivers all its bytes and a clean EOF, but its Close reports an error.
+	CloseErr bool `json:"close_err,omitempty"`
 }
 
 // Fault alters one store operation.
